@@ -29,6 +29,9 @@ INTERFACES: list[dict[str, Any]] = [
     {"ia": "1.0.2", "type": "Tunneling", "host": "1.0.0", "groups": [(1, ["1.0.5"]), (2305, ["1.0.5", "1.0.6"])]},
     {"ia": "1.0.3", "type": "USB", "groups": [(1, [])]},
     {"ia": "1.0.4", "type": "Tunneling", "host": "1.0.9", "user_id": 127, "password": "pässwörd €", "authentication": "", "groups": [(2, ["1.0.1"])]},
+    # every other subset of the optional credentials: a code without a password (as ETS writes for an interface of a secure device without tunnel credentials), a password without a code
+    {"ia": "1.0.6", "type": "Tunneling", "host": "1.0.0", "authentication": "only-a-code", "groups": [(2305, [])]},
+    {"ia": "1.0.7", "type": "Tunneling", "host": "1.0.0", "user_id": 3, "password": "only-a-password", "groups": []},
 ]
 DEVICES: list[dict[str, Any]] = [
     {"ia": "1.0.0", "tool_key": K[3], "management_password": "mgmt", "authentication": "devauth", "sequence_number": 108},
